@@ -352,6 +352,7 @@ pub fn run(r: &mut Report, ctx: &Ctx) {
     enumerate::<VNormalLC>(r, ctx, "C05");
     enumerate::<VLong>(r, ctx, "C05");
     enumerate::<VLongLC>(r, ctx, "C05");
+    crate::seq::section(r, ctx, "codec");
 }
 
 fn rp<V: Variant>(b: &[u8]) -> Result<(), String> {
